@@ -412,6 +412,13 @@ impl<H: Host> ZXController<H> {
     }
 }
 
+#[cfg(rustzx_verif)]
+impl<H: Host> ZXController<H> {
+    pub(crate) fn verif_paging_enabled(&self) -> bool {
+        self.paging_enabled
+    }
+}
+
 impl<H: Host> Z80Bus for ZXController<H> {
     /// we need to check different breakpoints like tape
     /// loading detection breakpoint
